@@ -5,8 +5,10 @@ or assembled with & | wildcard pattern matching the whole cell, texts case-insen
 is silent (blank cell against a numeric criterion, numeric-looking text against a number, booleans in the target range).
 Mis-sized ranges must end in an error value or a failing evaluation, never in a number."""
 import datetime as dt
+import json
 
-from .. import wbspec
+from .. import pipeline, wbspec
+from ..findings import report
 from ..refcheck import judge_book, replay_case
 from ..xlref.values import is_num
 
@@ -22,9 +24,9 @@ RULE = ('three aligned criteria columns A,B,C (rows 1-8) over {int, float, 0, ne
 ASSUMPTIONS = ['vf/xlref criterion semantics = the clauses of the statement', 'booleans and dates are not placed in criteria ranges; dates are not placed in the target range (texts are: a sum passes over them, an average over them is unjudged)',
                'blank vs numeric criterion, numeric text vs number, boolean target cells: either reading accepted']
 HOST_SETTINGS = {'shards': lambda shards: [0, len(shards) - 1], 'env': {'VERIF_HOST_DECIMAL': '3'}}
-FLOORS = {'quick': {'evaluations': 8000, 'nontrivial': 3000}, 'thorough': {'evaluations': 250000, 'nontrivial': 100000}}
+FLOORS = {'quick': {'evaluations': 8000, 'nontrivial': 3000, 'counters': {'clock_checks': 300}}, 'thorough': {'evaluations': 250000, 'nontrivial': 100000, 'counters': {'clock_checks': 2000}}}
 
-TEXTS = ['apple', 'Apple', 'APPLE', 'pear', 'a.c', 'abc', 'a*b', 'a?c', '[x]', 'x+y', 'pine apple', 'ap',
+TEXTS = ['12345678901-1', 'acct 40702810500000012345', '1:99999999999999999999', 'apple', 'Apple', 'APPLE', 'pear', 'a.c', 'abc', 'a*b', 'a?c', '[x]', 'x+y', 'pine apple', 'ap',
          # tildes in cells: literal tildes are written ~~ in a pattern, and a wildcard after ~~ is a live wildcard again
          '~', '~a', 'v~x', '~*', 'a~b', '~~', 'v~', '~apple',
          # words a date parser takes for dates: month and weekday names are plain texts
@@ -303,9 +305,68 @@ def run_dates(ctx, bi):
                classify=classify, nontrivial=lambda case, outs: is_num(outs[0]) and outs[0] != 0, on_result=on_result)
 
 
+CLOCKS = [dt.datetime(2024, 3, 1, 9, 0), dt.datetime(2024, 3, 15, 9, 0), dt.datetime(2024, 3, 31, 23, 59), dt.datetime(2024, 2, 29, 12, 0), dt.datetime(2024, 4, 30, 0, 0),
+          dt.datetime(2024, 12, 31, 23, 59, 59), dt.datetime(2024, 1, 1, 0, 0)]
+CLOCK_CRITS = ['">=Jan 2024"', '">=January 2024"', '"<Feb 2024"', '">=2024-01"', '"<=Jan 2024"', '">Dec 2023"', '">="&"Jan 2024"', '"<>Jan 2024"', '">=1 Jan 2024"', '"<15 Jan 2024"',
+               '">=2024-01-10"', '"<=31.01.2024"', '"Jan 2024"', '">Jan 2024"']
+
+
+def run_clock(ctx, bi):
+    """date criteria that leave the day (or the day and month) out, evaluated under several dates of the SAME year on a virtual clock (the
+    clock seen by the loaded class and by dateutil): which cells a criterion selects is a matter of the workbook, not of the day on
+    which it is asked.  Metamorphic: the values under all clocks are the same."""
+    from .c15 import make_shim
+    r, rng = ctx.r, ctx.rng
+    cells = {}
+    for row in range(1, 32):
+        cells[f'A{row}'] = dt.datetime(2024, 1, row) if rng.random() < 0.9 else dt.datetime(2023, 12, rng.randrange(1, 32))
+        cells[f'B{row}'] = rng.randrange(1, 9)
+    forms = {}
+    for i, c in enumerate(CLOCK_CRITS):
+        fn = ['=COUNTIFS(A1:A31,{c})', '=SUMIFS(B1:B31,A1:A31,{c})', '=SUMIF(A1:A31,{c},B1:B31)', '=AVERAGEIFS(B1:B31,A1:A31,{c})'][(i + bi) % 4]
+        forms[wbspec.a1(i + 1, 6)] = fn.format(c=c)
+    cells.update(forms)
+    book = pipeline.Book(wbspec.spec(wbspec.sheet('S', cells)), ctx.workdir, name=f'clk{bi}')
+    if book.cls is None:
+        r.violation('translate', {'spec': 'clock'}, book.whole.brief(), 'a loadable class')
+        return
+    g = None
+    for name in ('_today', 'exec_function_in'):
+        f = book.cls.__dict__.get(name)
+        f = getattr(f, '__func__', f)
+        f = getattr(f, '__wrapped__', f)
+        if f is not None and hasattr(f, '__globals__'):
+            g = f.__globals__
+            break
+    import dateutil.parser._parser as dparser
+    if g is None or 'datetime' not in g or not hasattr(dparser, 'datetime'):
+        r.inconcl('cannot reach the loaded module / dateutil to install the virtual clock')
+        return
+    saved, dsaved = g['datetime'], dparser.datetime
+    seen = {}
+    for now in CLOCKS:
+        shim = make_shim(now, 0)
+        g['datetime'], dparser.datetime = shim, shim
+        try:
+            outs = book.values(0, list(forms))
+        finally:
+            g['datetime'], dparser.datetime = saved, dsaved
+        for a, o in zip(forms, outs):
+            r.ev()
+            r.count('clock_checks')
+            seen.setdefault(a, []).append((now, o))
+    for a, lst in seen.items():
+        briefs = {json.dumps(o.brief(), sort_keys=True, default=str) for _, o in lst}
+        r.nt(('clock', forms[a], bi))
+        if len(briefs) > 1:
+            report(r, ID, None, {'formula': forms[a], 'how': 'virtual clocks of one year', 'cells': 'A1:A31 = days of January 2024 (some of December 2023)'},
+                   {str(now.date()): o.brief() for now, o in lst}, 'the same value on every day of the year', monitor='criterion-depends-on-the-clock')
+    r.sample({'clock_criteria': CLOCK_CRITS[:5], 'clocks': [str(c) for c in CLOCKS]})
+
+
 def _plan(tier, seed):
     n = 6 if tier == 'quick' else 160
-    return [{'k': k, 'n': n} for k in range(16)] + [{'dates': k, 'n': 2 if tier == 'quick' else 40} for k in range(4)]
+    return [{'k': k, 'n': n} for k in range(16)] + [{'dates': k, 'n': 2 if tier == 'quick' else 40} for k in range(4)] + [{'clock': k, 'n': 2 if tier == 'quick' else 12} for k in range(2)]
 
 
 def run_shard(shard, ctx):
@@ -314,6 +375,10 @@ def run_shard(shard, ctx):
         return run_mixed(ctx, ID, shard['n'])
     if 'replay' in shard:
         return replay_case(ctx, ID, shard['replay'], exact=False, classify=classify)
+    if 'clock' in shard:
+        for i in range(shard['n']):
+            run_clock(ctx, shard['clock'] * 1000 + i)
+        return
     if 'dates' in shard:
         for i in range(shard['n']):
             run_dates(ctx, shard['dates'] * 1000 + i)
